@@ -275,3 +275,46 @@ def c13(ctx):
     assumptions = ["the harness callback's own counter is copied to the fresh object (it is not library state)", "provider is not switched inside a sequence"]
     cov, mn = P.generic_harness_check(ctx, "C13_history", rule, assumptions, min_nontrivial={"quick": 2000, "thorough": 20000})
     return P.finish(ctx, "exploration", cov, assumptions, mn)
+
+
+# ---------------------------------------------------------------- C19
+harness_job("C19_callback")
+std_replayer("C19", "C19_callback")
+
+
+@P.check("C19")
+def c19(ctx):
+    """callback cannot bend the verdict: metamorphic (with vs without token-mutating callback), failing callbacks, callback-selected key/alg vs setkey"""
+    rule = ("rapidcheck: callback programs of 0-8 operations on the handed jwt_t (claim/header set-with-replace, delete, delete-all, whole-object replace; targets exp nbf iss sub aud "
+            "alg typ and another name; values that would pass or fail each check) returning 0 with config untouched, x checker configuration (no key / HS256 / ES256 public key, "
+            "iss/sub/aud set or not, exp/nbf leeway 0/50/off) x token whose exp, nbf, iss, sub, aud each are absent / passing / failing / wrong-typed and whose signature is valid or "
+            "not, x provider, at a fixed clock. Oracle: verdict with the callback == verdict of an identical checker without callback; a callback returning non-zero always fails "
+            "with the error flag set. Plus the exhaustive grid (provider x key table x 10 algs x 3 token kinds): a (key, alg) selected by a callback verifies iff the same pair given "
+            "to setkey is admitted and verifies. Non-trivial = the program edits a claim/header an enabled check reads (or wipes/replaces the object); distinct by hash of the whole case.")
+    assumptions = ["the callback leaves jwt_config_t untouched in the metamorphic part", "fixed clock; reference signer builds the tokens"]
+    cov, mn = P.generic_harness_check(ctx, "C19_callback", rule, assumptions, min_nontrivial={"quick": 5000, "thorough": 50000})
+    return P.finish(ctx, "exploration", cov, assumptions, mn)
+
+
+# ---------------------------------------------------------------- C14
+harness_job("C14_errors")
+std_replayer("C14", "C14_errors")
+
+
+@P.check("C14")
+def c14(ctx):
+    """error contract: every failure cause class on fresh and reused objects + random histories"""
+    rule = ("enumerated: provider x 12 checker configurations (no key / oct / EC / OKP keys, explicit or key alg, failing / selecting / mutating callbacks, iss, leeways) x "
+            "~45 classified tokens (each malformed-token stage, missing / non-string / unknown / case-variant alg, none with signature, payload not JSON / array, claim "
+            "failures and wrong claim types, signature failures per algorithm, foreign key, NULL, empty) x object state (fresh, reused after a success, reused after an "
+            "uncleared failure); 13 builder failure causes (short key, public key, failing / mismatching callback, family and size mismatch, unknown key alg, ...) x 3 object "
+            "states x provider; every single-member defect (absent / null / number / bool / array / object / empty / non-base64 / too short) of every member of RSA, EC, OKP, oct "
+            "JWKs (public and private), bare and inside a set; non-JSON documents; then rapidcheck histories over the C13 checker alphabet and the C10 builder alphabet. "
+            "Oracle: verify != 0 <=> error flag, failure has a message, success leaves flag clear and message empty; generate NULL <=> flag set with message; bad keyring items "
+            "and errored sets carry a message; setters return value.error. Non-trivial = failing call; distinct by (cause class, configuration, object state) / hash of history.")
+    assumptions = ["strings are valid UTF-8; errored jwk items are not passed to setkey"]
+    cov, mn = P.generic_harness_check(ctx, "C14_errors", rule, assumptions, min_nontrivial={"quick": 5000, "thorough": 50000})
+    cov["cause_classes"] = sorted(k[6:] for k in cov["classes"] if k.startswith("cause:"))
+    cov["n_cause_classes"] = len(cov["cause_classes"])
+    cov["classes"] = {k: v for k, v in cov["classes"].items() if not k.startswith("cause:")}
+    return P.finish(ctx, "exploration", cov, assumptions, mn)
